@@ -224,6 +224,38 @@ func (cr *cliRunner) runTreeRemote(id int64, tl *treeLine, root string, maps []M
 			return c, &c.TextOut
 		}, e.path("d"))
 		chk("copy", l, r)
+		cr.note(ri, "copy-glob")
+		{
+			// file globbing through /files: every matched source is copied to the same relative path
+			gdst := filepath.Join(e.root, "dstg")
+			treeBytes := func() []byte {
+				var all []byte
+				filepath.Walk(gdst, func(p string, info os.FileInfo, err error) error {
+					if err == nil && !info.IsDir() {
+						rel, _ := filepath.Rel(gdst, p)
+						b, _ := ioutil.ReadFile(p)
+						all = append(all, []byte(rel+"\x00")...)
+						all = append(all, b...)
+					}
+					return nil
+				})
+				return all
+			}
+			one := func(base string) readObs {
+				reset()
+				os.RemoveAll(gdst)
+				c := &cmd.CopyCommand{SrcBase: base, SrcRelPath: "src/item*/s*.wsp", DestBase: gdst,
+					AggregationMethod: methodOf(tl.Ccfg.Method), XFilesFactor: xffFloat(tl.Ccfg.Xff), ArchiveInfoList: archiveInfoList(tl.Ccfg),
+					From: from, Until: until, ArchiveID: arch, CopyNaN: row.Cn}
+				res := e.runCmd(c, &c.TextOut)
+				return readObs{Class: res.Class, Msg: res.Msg, Dest: treeBytes()}
+			}
+			l, r := one(e.root), one(srv.url)
+			os.RemoveAll(gdst)
+			if tl.S2.Absent || sameLayout(tl.S1.Cfg, tl.S2.Cfg) || l.Class == r.Class {
+				chk("copy (glob)", l, r)
+			}
+		}
 		cr.note(ri, "sum-diff")
 		l, r = cr.runBoth(e, srv, reset, "sum-diff", func(base string) (cmd.Command, *string) {
 			c := &cmd.SumDiffCommand{SrcBase: base, ItemPattern: "src/item*", SrcPattern: "s*.wsp", DestBase: e.destBase, DestRelPath: "d.wsp", From: from, Until: until, ArchiveID: arch}
@@ -344,4 +376,16 @@ func remoteSig(name string, l, r readObs) string {
 		return "remote-class:" + name + ":" + l.Class + "->" + r.Class
 	}
 	return ""
+}
+
+func sameLayout(a, b MCfg) bool {
+	if len(a.Layout) != len(b.Layout) {
+		return false
+	}
+	for i := range a.Layout {
+		if a.Layout[i] != b.Layout[i] {
+			return false
+		}
+	}
+	return true
 }
